@@ -130,10 +130,10 @@ def consultOut (cfg : Cfg) (H : Hashes) (p : Prompt) : Resp → Resp → Out
        some (gateResult H cfg.gate p z y)⟩
     else ⟨.raised, none⟩
   | .exc, _ => ⟨.agentExc, some errorResult⟩
-  | .excU, _ => ⟨.agentExc, none⟩
+  | .excU, _ => ⟨.agentExc, some errorResult⟩
   | .excB, _ => ⟨.aborted, none⟩
   | .ret _, .exc => ⟨.agentExc, some errorResult⟩
-  | .ret _, .excU => ⟨.agentExc, none⟩
+  | .ret _, .excU => ⟨.agentExc, some errorResult⟩
   | .ret _, .excB => ⟨.aborted, none⟩
 
 theorem consult_out (cfg : Cfg) (H : Hashes) (s : State) (p : Prompt) (zr yr : Resp) :
@@ -254,18 +254,26 @@ theorem afterCircuit_cache (cfg : Cfg) (H : Hashes) (s : State) (p : Prompt) (zr
           simp at hcf
           rw [h, hcf.2.1]
 
-/-! ### payloads that cannot be rendered -/
+/-! ### payloads and exceptions that cannot be rendered -/
 
-/-- `runP` is `run`, or — rendering fails and the request got as far as the gate — the look-up phase and the two
-    agent calls -/
+/-- the code as it is (`_describe`): rendering cannot fail, `runP true` is `run` whatever the payloads -/
+theorem runP_safe (cfg : Cfg) (H : Hashes) (s : State) (p : Prompt) (zr yr : RespP) :
+    runP true cfg H s p zr yr = run cfg H s p zr.resp yr.resp := rfl
+
+/-- the pre-fix shape: `runP false` is `run`, or — rendering fails and the request got as far as the gate — the
+    look-up phase and the two agent calls, or — the handler got an unrenderable exception — the state of `run`
+    (failure recorded) without a reply -/
 theorem runP_cases (cfg : Cfg) (H : Hashes) (s : State) (p : Prompt) (zr yr : RespP) :
-    runP cfg H s p zr yr = run cfg H s p zr.resp yr.resp ∨
+    runP false cfg H s p zr yr = run cfg H s p zr.resp yr.resp ∨
     (renderFails cfg.gate zr yr = true ∧ (∃ ev, (run cfg H s p zr.resp yr.resp).2.kind = .gated ev) ∧
-      runP cfg H s p zr yr = (callAssessor cfg (callExecutor cfg (lookup cfg H s p).1), ⟨.raised, none⟩)) := by
+      runP false cfg H s p zr yr = (callAssessor cfg (callExecutor cfg (lookup cfg H s p).1), ⟨.raised, none⟩)) ∨
+    (handlerFails zr.resp yr.resp = true ∧ (run cfg H s p zr.resp yr.resp).2.kind = .agentExc ∧
+      runP false cfg H s p zr yr = ((run cfg H s p zr.resp yr.resp).1, ⟨.agentExc, none⟩)) := by
   unfold runP
   generalize run cfg H s p zr.resp yr.resp = r
-  simp only
+  simp only [Bool.false_eq_true, ↓reduceIte]
   cases hk : r.2.kind <;> simp
-  cases hf : renderFails cfg.gate zr yr <;> simp
+  · cases hf : handlerFails zr.resp yr.resp <;> simp
+  · cases hf : renderFails cfg.gate zr yr <;> simp
 
 end Operon.Cffl
